@@ -127,7 +127,8 @@ def path0Key (p : Path0) (ns : Name) : PKey := mkKey ns p.cls (p.keys.map (fun e
 structure QualUse where
   name : Name
   ty   : Name
-  val  : Option Name        -- string value (EmbeddedInstance: class name), else none
+  val  : Option Name        -- string value (EmbeddedInstance: class name, Override: element name), else none
+  propagated : Bool := false   -- `CIMQualifier.propagated` of a stored class element (None counts as false)
   deriving DecidableEq, Repr, Inhabited
 
 structure QualDecl where
@@ -145,12 +146,28 @@ structure PropDef where
   quals : List QualUse
   deriving DecidableEq, Repr, Inhabited
 
+/-- CIMMethod (parameters are CIMParameter: name, type, is_array, reference_class, qualifiers) -/
+structure MethodDef where
+  name   : Name
+  retTy  : Name
+  quals  : List QualUse
+  params : List PropDef
+  deriving DecidableEq, Repr, Inhabited
+
 /-- CIMClass as given by a client -/
 structure ClassDef where
   name  : Name
   super : Option Name
   quals : List QualUse
   props : List PropDef
+  methods : List MethodDef := []
+  deriving DecidableEq, Repr, Inhabited
+
+/-- method of a stored (resolved) class -/
+structure MethodRec where
+  d          : MethodDef
+  origin     : Name
+  propagated : Bool
   deriving DecidableEq, Repr, Inhabited
 
 /-- property of a stored (resolved) class -/
@@ -165,6 +182,7 @@ structure ClassRec where
   super : Option Name
   quals : List QualUse
   props : List PropRec
+  methods : List MethodRec := []
   deriving DecidableEq, Repr, Inhabited
 
 structure InstRec where
@@ -375,9 +393,10 @@ def propDep (p : PropDef) : Option Name :=
     | none => none
   else none
 
-/-- mirrors _mainprovider.py: MainProvider._validate_dependencies_exist (no methods) -/
+/-- mirrors _mainprovider.py: MainProvider._validate_dependencies_exist: the properties and the parameters of
+    all methods -/
 def depsOk (r : NsRec) (c : ClassDef) : Bool :=
-  c.props.all (fun p =>
+  (c.props ++ c.methods.flatMap (·.params)).all (fun p =>
     match propDep p with
     | none => true
     | some d => nameEq d c.name || hasClass r d)
@@ -395,8 +414,62 @@ def classScope (c : ClassDef) : Name :=
 
 def propScope (p : PropDef) : Name := if p.ty == tyReference then tyReference else "property".toList
 
-/-- mirrors _resolvermixin.py: ResolverMixin._resolve_class — the rejections in their order and the
-    exposed property list (own properties, then the inherited ones that are not redefined) -/
+def qOverride : Name := "override".toList
+
+/-- value of the Override qualifier of a class element, if it has one -/
+def overrideName (qs : List QualUse) : Option Name :=
+  match qs.find? (fun q => nameEq q.name qOverride) with
+  | some q => some (q.val.getD [])
+  | none => none
+
+def ownQuals (qs : List QualUse) : List QualUse := qs.map (fun q => { q with propagated := false })
+def inheritedQuals (qs : List QualUse) : List QualUse := qs.map (fun q => { q with propagated := true })
+
+/-- mirrors _resolvermixin.py: _resolve_qualifiers(propagate=True) for qualifier declarations with the default
+    flavors (ToSubclass, EnableOverride - the only ones generated): the qualifiers of the overriding element stay,
+    those of the overridden element that it does not repeat are copied as propagated -/
+def mergeQuals (new inh : List QualUse) : List QualUse :=
+  ownQuals new ++ inheritedQuals (inh.filter (fun iq => !hasQual new iq.name))
+
+/-- mirrors _resolvermixin.py: _resolve_objects for one property of the new class -/
+def resolveProp (cname : Name) (inherited : List PropRec) (p : PropDef) : Except PyExc PropRec :=
+  match inherited.find? (fun ip => nameEq ip.d.name p.name) with
+  | none => .ok { d := { p with quals := ownQuals p.quals }, origin := cname, propagated := false }
+  | some _ =>
+    match overrideName p.quals with
+    | none => .error (cim cimErrInvalidParameter)      -- duplicates a superclass property without Override
+    | some ovn =>
+      if p.ty == tyReference && ovn != p.name then .error (cim cimErrInvalidParameter)
+      else
+        match inherited.find? (fun ip => nameEq ip.d.name ovn) with
+        | none => .error (cim cimErrInvalidParameter)
+        | some sp =>
+          if sp.d.ty != p.ty || sp.d.isArr != p.isArr then .error (cim cimErrInvalidParameter)
+          else .ok { d := { p with quals := mergeQuals p.quals sp.d.quals }, origin := sp.origin, propagated := true }
+
+/-- the parameter names of an overriding method must be exactly those of the overridden one: a new parameter goes
+    through `_set_new_object`, a missing one is copied from the superclass, and both assign `propagated` to a
+    CIMParameter, which has no such attribute (AttributeError) -/
+def sameParamNames (a b : List PropDef) : Bool :=
+  a.all (fun p => b.any (fun q => nameEq q.name p.name)) && b.all (fun q => a.any (fun p => nameEq p.name q.name))
+
+/-- mirrors _resolvermixin.py: _resolve_objects for one method of the new class -/
+def resolveMethod (cname : Name) (inherited : List MethodRec) (m : MethodDef) : Except PyExc MethodRec :=
+  match inherited.find? (fun im => nameEq im.d.name m.name) with
+  | none => .ok { d := { m with quals := ownQuals m.quals }, origin := cname, propagated := false }
+  | some same =>
+    match overrideName m.quals with
+    | none => .error (cim cimErrInvalidParameter)
+    | some ovn =>
+      match inherited.find? (fun im => nameEq im.d.name ovn) with
+      | none => .error (cim cimErrInvalidParameter)
+      | some sm =>
+        if sm.d.retTy != m.retTy then .error (cim cimErrInvalidParameter)
+        else if !sameParamNames m.params same.d.params then .error .attributeError
+        else .ok { d := { m with quals := mergeQuals m.quals sm.d.quals }, origin := sm.origin, propagated := true }
+
+/-- mirrors _resolvermixin.py: ResolverMixin._resolve_class — the rejections in their order and the exposed
+    properties and methods (those of the new class, then the inherited ones it does not redefine) -/
 def resolveClass (r : NsRec) (c : ClassDef) : Except PyExc ClassRec :=
   let sup : Except PyExc (Option ClassRec) :=
     match c.super with
@@ -412,14 +485,24 @@ def resolveClass (r : NsRec) (c : ClassDef) : Except PyExc ClassRec :=
     else if !isAssocDef c && c.props.any (fun p => p.ty == tyReference) then .error (cim cimErrInvalidParameter)
     else if !(c.quals.all (qualUseOk r (classScope c))) then .error (cim cimErrInvalidParameter)
     else if !(c.props.all (fun p => p.quals.all (qualUseOk r (propScope p)))) then .error (cim cimErrInvalidParameter)
+    else if !(c.methods.all (fun m => m.quals.all (qualUseOk r "method".toList) &&
+                m.params.all (fun p => p.quals.all (qualUseOk r "parameter".toList)))) then
+      .error (cim cimErrInvalidParameter)
     else
-      let inherited : List PropRec := match sc with | some k => k.props | none => []
-      if c.props.any (fun p => inherited.any (fun ip => nameEq ip.d.name p.name)) then
-        .error (cim cimErrInvalidParameter)          -- duplicates a superclass property without Override
-      else
-        let own := c.props.map (fun p => ({ d := p, origin := c.name, propagated := false } : PropRec))
-        let inh := inherited.map (fun ip => { ip with propagated := true })
-        .ok { name := c.name, super := c.super, quals := c.quals, props := own ++ inh }
+      let inhP : List PropRec := match sc with | some k => k.props | none => []
+      let inhM : List MethodRec := match sc with | some k => k.methods | none => []
+      match c.props.mapM (resolveProp c.name inhP) with
+      | .error e => .error e
+      | .ok own =>
+        match c.methods.mapM (resolveMethod c.name inhM) with
+        | .error e => .error e
+        | .ok ownM =>
+          let restP := (inhP.filter (fun ip => !c.props.any (fun p => nameEq p.name ip.d.name))).map (fun ip =>
+            { ip with propagated := true, d := { ip.d with quals := inheritedQuals ip.d.quals } })
+          let restM := (inhM.filter (fun im => !c.methods.any (fun m => nameEq m.name im.d.name))).map (fun im =>
+            { im with propagated := true, d := { im.d with quals := inheritedQuals im.d.quals } })
+          .ok { name := c.name, super := c.super, quals := ownQuals c.quals, props := own ++ restP,
+                methods := ownM ++ restM }
 
 def liftE {α} (x : Except PyExc α) : M α := fun s => (s, x)
 
@@ -873,7 +956,8 @@ def setQualifier (ns : Name) (q : QualDecl) : M Unit := do
   tryCatch (qualCreate ns q) (fun e => if e = .valueError then qualUpdate ns q else raise e)
 
 def classUsesQual (c : ClassRec) (n : Name) : Bool :=
-  hasQual c.quals n || c.props.any (fun p => hasQual p.d.quals n)
+  hasQual c.quals n || c.props.any (fun p => hasQual p.d.quals n) ||
+    c.methods.any (fun m => hasQual m.d.quals n || m.d.params.any (fun p => hasQual p.quals n))
 
 /-- mirrors _mainprovider.py: MainProvider.DeleteQualifier -/
 def deleteQualifier (ns : Name) (n : Name) : M Unit := do
